@@ -440,6 +440,10 @@ class PipelineRig(object):
                             'exc': bool(t.exception)}
         return out
 
+    def live_cores(self):
+        '''cores in use by processes which were started and have neither ended nor been killed'''
+        return sum(self.spec[u]['cores'] for u, p in self.procs.items() if p.code is None and not p.killed)
+
     def do(self, step):
         kind, _, arg = step.partition(':')
         self.cur = {'ev': kind, 'arg': arg or 'none', 'pub': [], 'push': [], 'raised': [],
@@ -476,6 +480,7 @@ class PipelineRig(object):
         ev['pool']   = self.sr.proj_pool()
         ev['free']   = sum(1 for n in self.sr.child.nodes for c in n['cores'] if c == rpc.FREE)
         ev['intasks'] = sorted(self.ex._tasks.keys())
+        ev['live']    = self.live_cores()
         self.events.append(ev)
 
     def _do(self, kind, arg):
@@ -586,7 +591,7 @@ class PipelineRig(object):
                                 'killed': [], 'uids': [], 'err': 'none' if n < max_steps else 'step limit',
                                 'client': self.client_states(), 'pool': self.sr.proj_pool(),
                                 'free': sum(1 for nd in self.sr.child.nodes for c in nd['cores'] if c == rpc.FREE),
-                                'intasks': sorted(self.ex._tasks.keys())})
+                                'intasks': sorted(self.ex._tasks.keys()), 'live': self.live_cores()})
             return self.trace()
         finally:
             self.cleanup()
